@@ -1,6 +1,9 @@
 Kernels.vo Kernels.glob Kernels.v.beautified Kernels.required_vo: Kernels.v /verif/coq/Base.vo
 Kernels.vio: Kernels.v /verif/coq/Base.vio
 Kernels.vos Kernels.vok Kernels.required_vos: Kernels.v /verif/coq/Base.vos
+Kernels2.vo Kernels2.glob Kernels2.v.beautified Kernels2.required_vo: Kernels2.v /verif/coq/Base.vo Kernels.vo
+Kernels2.vio: Kernels2.v /verif/coq/Base.vio Kernels.vio
+Kernels2.vos Kernels2.vok Kernels2.required_vos: Kernels2.v /verif/coq/Base.vos Kernels.vos
 KLemmas.vo KLemmas.glob KLemmas.v.beautified KLemmas.required_vo: KLemmas.v /verif/coq/Base.vo Kernels.vo
 KLemmas.vio: KLemmas.v /verif/coq/Base.vio Kernels.vio
 KLemmas.vos KLemmas.vok KLemmas.required_vos: KLemmas.v /verif/coq/Base.vos Kernels.vos
@@ -13,6 +16,12 @@ Proofs_C13b.vos Proofs_C13b.vok Proofs_C13b.required_vos: Proofs_C13b.v /verif/c
 Proofs_C13c.vo Proofs_C13c.glob Proofs_C13c.v.beautified Proofs_C13c.required_vo: Proofs_C13c.v /verif/coq/Base.vo Kernels.vo KLemmas.vo Proofs_C13.vo Proofs_C13b.vo
 Proofs_C13c.vio: Proofs_C13c.v /verif/coq/Base.vio Kernels.vio KLemmas.vio Proofs_C13.vio Proofs_C13b.vio
 Proofs_C13c.vos Proofs_C13c.vok Proofs_C13c.required_vos: Proofs_C13c.v /verif/coq/Base.vos Kernels.vos KLemmas.vos Proofs_C13.vos Proofs_C13b.vos
-Props_C13.vo Props_C13.glob Props_C13.v.beautified Props_C13.required_vo: Props_C13.v /verif/coq/Base.vo Kernels.vo KLemmas.vo Proofs_C13.vo Proofs_C13b.vo Proofs_C13c.vo
-Props_C13.vio: Props_C13.v /verif/coq/Base.vio Kernels.vio KLemmas.vio Proofs_C13.vio Proofs_C13b.vio Proofs_C13c.vio
-Props_C13.vos Props_C13.vok Props_C13.required_vos: Props_C13.v /verif/coq/Base.vos Kernels.vos KLemmas.vos Proofs_C13.vos Proofs_C13b.vos Proofs_C13c.vos
+Proofs_C13e.vo Proofs_C13e.glob Proofs_C13e.v.beautified Proofs_C13e.required_vo: Proofs_C13e.v /verif/coq/Base.vo Kernels.vo KLemmas.vo Proofs_C13.vo Proofs_C13b.vo Proofs_C13c.vo Kernels2.vo
+Proofs_C13e.vio: Proofs_C13e.v /verif/coq/Base.vio Kernels.vio KLemmas.vio Proofs_C13.vio Proofs_C13b.vio Proofs_C13c.vio Kernels2.vio
+Proofs_C13e.vos Proofs_C13e.vok Proofs_C13e.required_vos: Proofs_C13e.v /verif/coq/Base.vos Kernels.vos KLemmas.vos Proofs_C13.vos Proofs_C13b.vos Proofs_C13c.vos Kernels2.vos
+Proofs_C13f.vo Proofs_C13f.glob Proofs_C13f.v.beautified Proofs_C13f.required_vo: Proofs_C13f.v /verif/coq/Base.vo Kernels.vo KLemmas.vo Proofs_C13.vo Proofs_C13b.vo Proofs_C13c.vo Kernels2.vo Proofs_C13e.vo
+Proofs_C13f.vio: Proofs_C13f.v /verif/coq/Base.vio Kernels.vio KLemmas.vio Proofs_C13.vio Proofs_C13b.vio Proofs_C13c.vio Kernels2.vio Proofs_C13e.vio
+Proofs_C13f.vos Proofs_C13f.vok Proofs_C13f.required_vos: Proofs_C13f.v /verif/coq/Base.vos Kernels.vos KLemmas.vos Proofs_C13.vos Proofs_C13b.vos Proofs_C13c.vos Kernels2.vos Proofs_C13e.vos
+Props_C13.vo Props_C13.glob Props_C13.v.beautified Props_C13.required_vo: Props_C13.v /verif/coq/Base.vo Kernels.vo KLemmas.vo Proofs_C13.vo Proofs_C13b.vo Proofs_C13c.vo Proofs_C13e.vo Proofs_C13f.vo
+Props_C13.vio: Props_C13.v /verif/coq/Base.vio Kernels.vio KLemmas.vio Proofs_C13.vio Proofs_C13b.vio Proofs_C13c.vio Proofs_C13e.vio Proofs_C13f.vio
+Props_C13.vos Props_C13.vok Props_C13.required_vos: Props_C13.v /verif/coq/Base.vos Kernels.vos KLemmas.vos Proofs_C13.vos Proofs_C13b.vos Proofs_C13c.vos Proofs_C13e.vos Proofs_C13f.vos
